@@ -132,7 +132,7 @@ func judge(t *sut.Target, recs []refpq.Val, sizes []int, devs []Dev) (msg string
 	if err != nil {
 		return "", "foreign writer: " + err.Error()
 	}
-	pf, err := refpq.ParseFile(file, refpq.ParseOptions{})
+	pf, err := refpq.ParseFile(file, refpq.ParseOptions{AllowEmptyRowGroups: true})
 	if err != nil {
 		return "", "foreign file unparseable by the reference: " + err.Error()
 	}
@@ -179,6 +179,14 @@ func contents(c *fw.Ctx) []content {
 		t := sut.Get(tn)
 		add(tn, families.MixedRecords(t, 4), []int{4})
 		add(tn, families.MixedRecords(t, 5), []int{3, 2})
+	}
+	// row groups without rows (legal; some writers emit them) before, between
+	// and after row groups with rows
+	for _, tn := range []string{"mini", "flat3"} {
+		t := sut.Get(tn)
+		add(tn, families.MixedRecords(t, 4), []int{2, 0, 2})
+		add(tn, families.MixedRecords(t, 3), []int{0, 3})
+		add(tn, families.MixedRecords(t, 3), []int{3, 0})
 	}
 	if c.Thorough() {
 		t := sut.Get("document")
@@ -249,6 +257,9 @@ func singleDevs(t *sut.Target, ct content, planCap int, reduced bool) []Dev {
 	for gi, n := range ct.sizes {
 		recs := ct.recs[p : p+n]
 		p += n
+		if n == 0 {
+			continue // a row group without rows has nothing to encode differently
+		}
 		cols := refpq.Stripe(t.Schema(), recs)
 		for ci, col := range cols {
 			leaf := leaves[ci]
@@ -403,6 +414,7 @@ func run(c *fw.Ctx) {
 	}
 	longFamilies(c, emit)
 	longSplits(c, emit)
+	bigPages(c, emit)
 }
 
 // longSplits: 20-record contents whose columns are split into pages at
@@ -493,6 +505,38 @@ func longFamilies(c *fw.Ctx, emit func(t *sut.Target, ct content, devs []Dev, ta
 	}
 }
 
+// bigPages: pages whose bodies are larger than 32 KiB, 64 KiB and 1 MiB
+// (sizes at which decompressors and readers hand data out in pieces), each
+// with every codec on every column.
+func bigPages(c *fw.Ctx, emit func(t *sut.Target, ct content, devs []Dev, tagf string, a ...interface{})) {
+	t := sut.Get("mini")
+	ns := []int{9000, 20000, 300000}
+	for _, n := range ns {
+		recs := make([]refpq.Val, n)
+		for i := range recs {
+			flag := refpq.Val{Leaf: i%3 == 0}
+			if i%5 == 0 {
+				flag = refpq.Val{Null: true}
+			}
+			tags := refpq.Val{}
+			if i%4 == 1 {
+				tags = refpq.Val{List: []refpq.Val{{Leaf: fmt.Sprintf("t%d", i)}}}
+			}
+			recs[i] = refpq.Val{Group: []refpq.Val{{Leaf: int32(i * 7)}, flag, tags, {Leaf: int64(i) * 1000003}}}
+		}
+		ct := content{"mini", recs, []int{n}}
+		for _, cd := range []int{refpq.CodecSnappy, refpq.CodecNone, refpq.CodecGzip} {
+			var devs []Dev
+			if cd != refpq.CodecSnappy {
+				for ci := 0; ci < 4; ci++ {
+					devs = append(devs, Dev{Kind: "codec", RG: 0, Col: ci, Arg: cd})
+				}
+			}
+			emit(t, ct, devs, fmt.Sprintf("bigpage|n%d|codec%d", n, cd))
+		}
+	}
+}
+
 func devKinds(devs []Dev) string {
 	s := ""
 	for i, d := range devs {
@@ -551,7 +595,7 @@ func Main() {
 		Level: "exploration",
 		Rule: "an independent writer produces, for fixed logical content (mini, flat3, document, person; 1 and 2 row groups), every file within <= d simultaneous deviations from a baseline physical plan (snappy, one page per chunk, canonical run plan, statistics present): " +
 			"(a) every legal RLE/bit-packed run plan of each level stream (up to a cap per stream), (b) every split of a column's records into pages, independently per column, (c) codec per column, (d) six snappy stream shapes (literal forms, copy1/copy2/copy4), (e) statistics variants and optional thrift fields (crc, key/value metadata, created_by, column_orders, encoding_stats, unknown field ids, ...). " +
-			"d=1 exhaustively, d=2 over a reduced deviation set; plus long level streams (bit-packed runs of 1..200 groups, RLE runs up to 16384 with multi-byte headers). Every file is first validated and reassembled by the reference parser. Oracle: the generated reader returns exactly the records, Error()==nil",
+			"d=1 exhaustively, d=2 over a reduced deviation set; plus long level streams (bit-packed runs of 1..200 groups, RLE runs up to 16384 with multi-byte headers) and pages with bodies above 32 KiB, 64 KiB and 1 MiB in every codec. Every file is first validated and reassembled by the reference parser. Oracle: the generated reader returns exactly the records, Error()==nil",
 		Assumptions: []string{
 			"padding bits of the final bit-packed group are zero (the specification does not define them and the property does not list them)",
 			"the independent writer and the reference parser are cross-checked on every file (a disagreement aborts the run as a harness error, it is never reported as a violation)",
